@@ -374,8 +374,10 @@ def run(ctx):
     ctx.rule('C06.FLUSHALL', lambda: rule_flushall(ctx, 'C06'), 3)
     ctx.rule('C06.CANCELPROP', lambda: rule_cancel_propagates(ctx), 10)
     ctx.rule('C06.FLUSHOFFLINE', lambda: rule_flush_offline(ctx), 3)
+    ctx.rule('C06.LOCKOFFLINE', lambda: rule_lock_offline(ctx), 3)
     from . import c04 as _c04
     ctx.rule('C06.STATEALIAS', lambda: _c04.rule_statealias(ctx, 'C06'), 2)
+    ctx.rule('C06.FSMETA', lambda: _c04.rule_file_offsets(ctx, 'C06'), 5)
     # each backup job leaves the durable state consistent at one height: the history truncation belongs to
     # the same job as the UTXO commit (a stop between jobs is a legal cancellation instant)
     from ..effects import InlineGraph
@@ -461,3 +463,28 @@ def rule_flush_offline(ctx):
               'for ever, the flush never happens and the finished blocks are lost when the process is killed',
               loc=ctx.loc(fis, fis.node))
     return len(clo)
+
+
+def rule_lock_offline(ctx):
+    '''Nothing that runs inside run_with_lock() waits for the daemon: the section is shielded from cancellation and holds the
+    state lock, so a daemon that has gone away would keep the shutdown handler (which needs the lock for its safe flush)
+    waiting for ever.'''
+    lc = LockCtx(ctx)
+    dm = ctx.repo.path('daemon')
+    n = 0
+    bad = []
+    for (caller, outer, inner, callee) in ctx.cg.coro_args:
+        r = ctx.res.resolve_ref(outer.func, caller)
+        if r is None or r.key != lc.lock_func.key or callee is None:
+            continue
+        n += 1
+        clo = _task_closure(ctx, callee)
+        for g in clo.values():
+            for e in ctx.cg.callees(g, ('AWAIT',)):
+                if e[1].unit.relpath == dm and e[1].is_async:
+                    bad.append(f'{ctx.loc(caller, outer)} run_with_lock({callee.qual}) -> {g.qual} awaits {e[1].qual}')
+    ctx.check(not bad, 'C06.LOCKOFFLINE', 'electrumx/server/block_processor.py :: run_with_lock :: no daemon wait inside the locked section',
+              f'none of the {n} coroutines run under the lock awaits a daemon request',
+              '; '.join(bad[:2]) + ': the wait is shielded from the shutdown cancellation and holds the lock the shutdown flush needs - '
+              'with the daemon unreachable the server never stops')
+    return n
